@@ -583,26 +583,11 @@ func (w *World) Step() {
 		}
 	case 7: // alter add column
 		cname := w.newName("nc")
-		def := cname + " " + []string{"INTEGER", "TEXT", "", "REAL", "BLOB", "NUMERIC"}[s.Draw(6, "acty")]
-		switch s.Draw(9, "adef") {
-		case 0:
-		case 1:
-			def += " DEFAULT 7"
-		case 2:
-			def += " DEFAULT 'dflt'"
-		case 3:
-			def += " NOT NULL DEFAULT 0"
-		case 4:
-			def += " DEFAULT 010"
-		case 5:
-			def += " DEFAULT '12'"
-		case 6:
-			def += " DEFAULT -3.5 COLLATE NOCASE"
-		case 7:
-			def += " DEFAULT NULL"
-		default:
-			def += " COLLATE RTRIM DEFAULT 'abc  '"
-		}
+		def := cname + " " + []string{"INTEGER", "TEXT", "", "REAL", "BLOB", "NUMERIC", "VARCHAR(20)", "BIGINT", "DOUBLE", "DATETIME"}[s.Draw(10, "acty")]
+		defaults := []string{"", " DEFAULT 7", " DEFAULT 'dflt'", " NOT NULL DEFAULT 0", " DEFAULT 010", " DEFAULT '12'", " DEFAULT NULL", " COLLATE RTRIM DEFAULT 'abc  '",
+			" DEFAULT ' 12 '", " DEFAULT '1e3'", " DEFAULT '12abc'", " DEFAULT '0x10'", " DEFAULT '.5'", " DEFAULT '-0'", " DEFAULT '9223372036854775808'",
+			" DEFAULT 9223372036854775807", " DEFAULT -9223372036854775808", " DEFAULT '3.0'", " DEFAULT '+5'", " DEFAULT ''", " DEFAULT '1e400'", " DEFAULT abc", " DEFAULT TRUE", " DEFAULT false", " DEFAULT '12.50'"}
+		def += defaults[s.Draw(len(defaults), "adef")]
 		w.Begin()
 		w.Exec("ALTER TABLE " + gen.Quote(t.Name) + " ADD COLUMN " + def)
 		w.Commit()
